@@ -63,7 +63,8 @@ package spynode
 //@ func (*Node).IsRelevant
 //@   serves C08
 //@   opt nomonitor = 1
-//@   requires node != nil && tx != nil && forall(k, 0, len(tx.TxOut), tx.TxOut[k] != nil) && forall(k, 0, len(tx.TxIn), tx.TxIn[k] != nil)
+//@   requires node != nil && tx != nil
+//@   given forall(k, 0, len(tx.TxOut), tx.TxOut[k] != nil) && forall(k, 0, len(tx.TxIn), tx.TxIn[k] != nil)
 //@   assumes value: result == Relevant(tx)
 //@   loop 2 invariant 0 <= _i && _i <= len(tx.TxOut) && fbase(node, tx) && outsClear(node, tx, _i)
 //@   loop 0 invariant r != nil && 0 <= rpos(r) && rpos(r) <= ntok(r) && mirrors(r, lockblob(output)) && noHit(node, lockblob(output), rpos(r)) && fbase(node, tx)
